@@ -11,6 +11,7 @@ import struct
 
 from .. import gen, lib, ops, fmt, wgen, wexec
 from ..backends import store, open_fds
+from ..simfs import SIM_ROOT
 from ..compare import V
 from ..core import Result, digest
 from ..world import build
@@ -159,7 +160,7 @@ def garblings(name, size, e):
 
 # ------------------------------------------------------------------------------ scenarios
 def file_arg(st, kind, name):
-    return st.fs.stream(name) if kind == 'stream' else name
+    return st.fs.stream(name) if kind == 'stream' else SIM_ROOT + name
 
 
 def sc_read(st, kind, w, raw=False):
@@ -203,7 +204,7 @@ def sc_with_open(st, kind, w):
 
 def sc_defragment(st, kind, w):
     src = file_arg(st, kind, 'w.tdms')
-    dst = st.fs.stream('d.tdms', 'w+b') if kind == 'stream' else 'd.tdms'
+    dst = st.fs.stream('d.tdms', 'w+b') if kind == 'stream' else SIM_ROOT + 'd.tdms'
     lib.TdmsWriter.defragment(src, dst, index_file=(st.fs.stream('d.tdms_index', 'w+b') if kind == 'stream' else True))
 
 
@@ -613,7 +614,7 @@ def writer_block(case, res):
                     st.fs.fail_opens = {boom[1]}
                 nptdms = lib.nptdms
                 if sink == 'simpath':
-                    target, idx = 'o.tdms', True
+                    target, idx = SIM_ROOT + 'o.tdms', True
                 else:
                     target, idx = st.fs.stream('o.tdms', 'w+b'), st.fs.stream('o.tdms_index', 'w+b')
                 raised = None
